@@ -169,3 +169,61 @@ pub fn cell_case(cell: &Cell) -> Value {
         "cell": cell.cell,
     })
 }
+
+// ---------------------------------------------------------------------------------------------
+// comment positions (domain of C02 and C03)
+
+use crate::lex::{lex, TK};
+
+#[derive(Debug, Clone, Copy, PartialEq, Eq)]
+pub enum CommentPos {
+    /// inside the body block of a function or method
+    InFnBody,
+    /// between items / statements / list elements, or at the end of such a line
+    Boundary,
+    /// anywhere else (e.g. between `fn` and the name): outside the claims of C02/C03
+    Odd,
+}
+
+/// Classifies every non-doc comment of `src` (in order). `None` if `src` does not parse.
+pub fn comment_positions(src: &str, edition: &str) -> Option<Vec<(usize, usize, CommentPos)>> {
+    let toks = lex(src);
+    if !toks.iter().any(|t| t.kind.is_comment()) {
+        return Some(vec![]);
+    }
+    let bodies = crate::parse::fn_body_ranges(src, edition)?;
+    let sig: Vec<usize> = toks
+        .iter()
+        .enumerate()
+        .filter(|(_, t)| !t.kind.is_trivia())
+        .map(|(i, _)| i)
+        .collect();
+    let mut out = vec![];
+    for (i, t) in toks.iter().enumerate() {
+        if !t.kind.is_comment() {
+            continue;
+        }
+        let pos = if bodies.iter().any(|(lo, hi)| *lo < t.lo && t.hi < *hi) {
+            CommentPos::InFnBody
+        } else {
+            let prev = sig.iter().rev().find(|j| **j < i).map(|j| toks[*j].text(src));
+            let next = sig.iter().find(|j| **j > i).map(|j| toks[*j].text(src));
+            let prev_ok = match prev {
+                None => true,
+                Some(p) => matches!(p, ";" | "{" | "}" | "," | "(" | "[" | "]"),
+            };
+            let next_ok = match next {
+                None => true,
+                Some(n) => matches!(n, "}" | ")" | "]"),
+            };
+            if prev_ok || next_ok {
+                CommentPos::Boundary
+            } else {
+                CommentPos::Odd
+            }
+        };
+        out.push((t.lo, t.hi, pos));
+    }
+    let _ = TK::Whitespace;
+    Some(out)
+}
